@@ -83,15 +83,12 @@ func MasterSeedSig(h primitives.BlockHeight, digest []byte) []byte {
 
 type KeyManager struct {
 	Me primitives.MemberId
-	// counters (observations)
-	VerifyCalls int
 }
 
 func (k *KeyManager) SignConsensusMessage(ctx context.Context, h primitives.BlockHeight, c []byte) primitives.Signature {
 	return Sig("C", k.Me, h, c)
 }
 func (k *KeyManager) VerifyConsensusMessage(h primitives.BlockHeight, c []byte, s *protocol.SenderSignature) error {
-	k.VerifyCalls++
 	if s == nil || len(s.MemberId()) == 0 {
 		return errors.New("no sender")
 	}
